@@ -313,12 +313,12 @@ func (l *lexer) tryLexOperator() bool {
 		if strings.HasPrefix(l.input[l.pos+1:], "}") {
 			return false
 		}
-	} else if isAlpha(op) {
-		// If operator is alphabetic (such as "in" or "is"),
-		// we avoid matching "include" or functions like "is_currently_on"
-		// For such operators to be valid, they need to have a space after.
-		lenOp := len(op)
-		if (l.pos+lenOp+1) <= len(l.input) && l.input[l.pos+lenOp:l.pos+lenOp+1] != " " {
+	} else if isAlpha(op[len(op)-1:]) {
+		// If operator ends in a letter (such as "in", "is not" or "b-and"),
+		// we avoid matching "include" or functions like "is_currently_on":
+		// the operator must not run into a name. Anything else may follow it,
+		// be it a space, a tab, a line break or a parenthesis.
+		if rest := l.input[l.pos+len(op):]; rest != "" && isName(rest[:1]) {
 			return false
 		}
 	} else if op == delimTrimWhitespace {
